@@ -4661,6 +4661,9 @@ struct Builder<'a, 'graph> {
   graph: &'graph mut ModuleGraph,
   state: PendingState<'a>,
   fill_pass_mode: FillPassMode,
+  /// What the graph held before the first pass (nothing, or what
+  /// `fill_from_lockfile` put there), to start over from on a restart.
+  graph_before_first_pass: Option<ModuleGraph>,
   executor: &'a dyn Executor,
   resolved_roots: BTreeSet<ModuleSpecifier>,
 }
@@ -4675,6 +4678,8 @@ impl<'a, 'graph> Builder<'a, 'graph> {
       true => FillPassMode::AllowRestart,
       false => FillPassMode::NoRestart,
     };
+    let graph_before_first_pass =
+      (fill_pass_mode == FillPassMode::AllowRestart).then(|| graph.clone());
     Self {
       in_dynamic_branch: options.is_dynamic,
       skip_dynamic_deps: options.skip_dynamic_deps,
@@ -4706,6 +4711,7 @@ impl<'a, 'graph> Builder<'a, 'graph> {
         ..Default::default()
       },
       fill_pass_mode,
+      graph_before_first_pass,
       executor: options.executor,
       resolved_roots: Default::default(),
     }
@@ -5361,8 +5367,13 @@ impl<'a, 'graph> Builder<'a, 'graph> {
     roots: Vec<ModuleSpecifier>,
     imports: Vec<ReferrerImports>,
   ) -> LocalBoxFuture<'_, ()> {
-    // if restarting is allowed, then the graph will have been empty at the start
-    *self.graph = ModuleGraph::new(self.graph.graph_kind);
+    // if restarting is allowed, then the graph had no roots at the start, but
+    // it may hold the redirects and package selections of the lockfile, which
+    // the second pass has to honour just like the first one did
+    *self.graph = match &self.graph_before_first_pass {
+      Some(graph) => graph.clone(),
+      None => ModuleGraph::new(self.graph.graph_kind),
+    };
     self.state = PendingState::default();
     self.fill_pass_mode = FillPassMode::CacheBusting;
 
